@@ -33,8 +33,10 @@ RULE = ('one case = (dtype, operation variant incl. shapes/axes/keys, input arra
         'every listed shape tuple ALL assignments of the first j values of a fixed priority alphabet to all elements, j = '
         'largest with j^n <= limit (quick 60 [matmul family 40, reductions 30], thorough 1000 [reductions 400]; j >= 2); when even 2^n exceeds the limit: the boundary family {constant arrays} + {one element deviating from an all-zero (all-first-value) array, each position x each value} + {two alternating patterns} over the first 3 values.  Structural operations (reshape, stack, getitem, ...): '
         'every shape x every parameter value (axes, orders, shifts, keys) x 2 position-marker fillings.  Each case under masks '
-        'seeded, all-zero, all-max, seeded#2 when the operation draws randomness (thorough: additionally every alphabet value at '
-        'each of the first 4 draws for the first/last 3 inputs of each operation).  Reference preconditions not met (value leaves '
+        'seeded, all-zero, all-max when the operation draws randomness (thorough: also a second seed, and every alphabet value at '
+        'each of the first 4 draws for the first/last 3 inputs of each operation); scalar oracle on every input (quick: every 5th); '
+        'PRSS single-party runs: seeded only; multi-party (m=3,t=1, PRSS on/off): the operations flagged for it on the first, '
+        'middle and last inputs of their quick domain under seeded / all-max / all-zero patterns.  Reference preconditions not met (value leaves '
         'the l-bit range, division by 0) => case not evaluated.  Failures that disappear when ONLY the np_trunc masks r_divf '
         '(bound 2^(k+l-f\')) are forced to their maximum are keyed C37:np_trunc:secfxp:mask-range with the call site in the text. '
         'non-trivial = at least one random draw or more than one party or non-scalar shape')
@@ -45,8 +47,9 @@ ASSUMPTIONS = [
     'the code performs: elementwise products, outer, convolve: one truncation per element; matmul: ONE truncation of the exact sum of '
     'products (np_matmul truncates C = A @ B once, so the bound is 1 unit, not one per term); prod/pow/vander: one per multiplication in '
     'the association order of the code; an integral operand makes the product exact; public floats are first rounded to the grid',
-    'secfxp division by SECRET divisors (Newton iteration _rec/_norm, no documented error bound) is checked against the exact '
-    'quotient with the tolerance the repository tests use (2^(3-f) absolute, i.e. 8 units) on |x/y| <= 4 and |y| >= 1/2',
+    'secfxp division by SECRET divisors (Newton iteration _rec/_norm shared with the scalar code, no documented error bound) is only '
+    'checked for termination without exception and for the declared shape (any in-range value is accepted); public divisors are exact '
+    'or within one unit of x * grid(1/y)',
     'np_log/np_exp*/np_pow with float exponents (approximations) and np_find are outside this check',
     'excluded event: blinding factor 0 in np_is_zero_public on large fields (forced non-zero by the seam)',
     'tiny parameters (l=6, (8,3), k=4, m=3) stand for the parametric code',
@@ -403,6 +406,9 @@ def build_ops(dt):
             guard_mul(lambda x, y: x * y)(a, b)
             return tr(a * b)
         op('np_multiply', v, [sa, sb], lambda a, b: a * b, mul_ref, scal=lambda a, b: a * b, mp=first, trunc=True)
+        if fxp:
+            op('np_divide', 'secret:shape-only' + v, [sa, sb],  lambda a, b: a / b,
+               lambda a, b: dt.vec(lambda e: dt.Fx(-(1 << (dt.l - 1)) + 1, (1 << (dt.l - 1)) - 1))(a + b * 0), alpha='small/nz')
         if not num:
             op('np_divide', v, [sa, sb], lambda a, b: a / b, scal=True, alpha='arith/nz', mp=(sa, sb) == ((2, 2), (2,)))
             op('np_equal', 'eq' + v, [sa, sb], lambda a, b: a == b, lambda a, b: bits(pyf(operator.eq)(a, b)),
@@ -480,6 +486,9 @@ def build_ops(dt):
             op('np_multiply', f'A*floatarray@{v}', [s], lambda a, p=fpub: a * p, lambda a, p=fpub: tr(a * _grid(dt, p)), trunc=True)
             op('np_divide', f'A/int@{v}', [s], lambda a: a / 2, lambda a: tr(a * 0.5), trunc=True)
             op('np_divide', f'A/float@{v}', [s], lambda a: a / 0.5, lambda a: tr(a * 2.0), trunc=True)
+            anyval = lambda a: dt.vec(lambda e: dt.Fx(-(1 << (dt.l - 1)) + 1, (1 << (dt.l - 1)) - 1))(a)
+            op('np_divide', f'A/secret-S:shape-only@{v}', [s, 'S'], lambda a, b: a / b, lambda a, b: anyval(a), alpha='small/nz')
+            op('np_divide', f'int/secret-A:shape-only@{v}', [s], lambda a: 1 / a, anyval, alpha='nz')
             op('np_divide', f'A/float-inexact@{v}', [s], lambda a: a / 2.5, lambda a: tr(a * (1 / 2.5)), trunc=True)
             op('np_divide', f'A/floatarray@{v}', [s], lambda a, p=fpub: a / p, lambda a, p=fpub: tr(a * _grid(dt, 1 / p)), trunc=True)
         if num:
@@ -1121,11 +1130,6 @@ def input_domain(dt, op, lim):
             pos += sz
         out.append(tuple(codes))
     return out
-
-
-def flat_out(x):
-    """Nested lists/tuples/object-ndarrays of secure objects -> flat list structure accepted by mpc.output."""
-    return x
 
 
 class Ctx:
